@@ -148,7 +148,7 @@ func init() {
 	checks["C13"] = enumCheck("c13",
 		"entropies of the five legal sizes: all-zero, all-ones, every leading-zero run, every placement of one byte from {01,7f,80,ff} and of two such bytes; the thorough tier adds every value of every single byte position on three backgrounds and the full 65536 sweep of the last two bytes per size; seeds for every 11th entropy x 9 passphrases (empty, ASCII, NFKD-sensitive, and six with white space at either end or inside); negative family: per size 3 base mnemonics x (6 substitutions per position, adjacent transpositions, every truncation, extensions, 7 re-spacings); reference = independent bit-slicing encoder/decoder + own PBKDF2-HMAC-SHA512, validated against BIP-39 vectors 1 and 2 and the SHA-256 of the official english.txt; non-trivial = entropy with a leading zero byte or non-zero content, and every mutated sequence",
 		[]string{"IsMnemonicValid is only required to reject wrong lengths and non-list words (its documented contract); checksum acceptance is judged on EntropyFromMnemonic/MnemonicToByteArray/NewSeedWithErrorChecking",
-			"re-spaced but otherwise valid sentences may be accepted or rejected; if accepted the entropy must be right",
+			"sentences re-spaced with white space only (double blanks, tabs, newlines, CRLF, leading/trailing blanks) are word sequences like any other: they must be accepted with the right entropy; other separators (comma) make non-list words",
 			"small-scope claim over the listed families, not over all 2^256 entropies"})
 }
 
